@@ -6,7 +6,7 @@ CONSTANTS
   Breaks <- BreaksQ
   Degs <- DegsQ
   MaxNpts = 4
-  Acts = {"CvSplit"}
+  Acts = {"CvSplit", "CvSplitJoin"}
   PtKinds = {"gen"}
   WtKinds = {"none", "gen", "const"}
   ExtraNodes <- Extra0
